@@ -1060,6 +1060,14 @@ func (p *RPCCompiler) processRepeatedField(message protoref.Message, fd protoref
 			}
 
 			list.Append(protoref.ValueOfMessage(fieldMsg))
+		case DataTypeEnum:
+			// setValueForKind has no enum case: an invalid protoref.Value would make list.Append panic.
+			val, err := p.getEnumValue(rpcField.EnumName, element)
+			if err != nil {
+				return err
+			}
+
+			list.Append(val)
 		default:
 			list.Append(p.setValueForKind(field.Type, element))
 		}
